@@ -88,7 +88,8 @@ def oracle(lines, io, spec=None):
         return fails
     if variant == 'keysize':
         c = next((o for l, o in zip(lines, io) if l == 'counts'), '')
-        if 'records=0 ' not in c or 'corrupted=3' not in c:
+        nblobs = len([f for f in os.listdir(os.path.join(CORPUS, e, 'dir')) if f.endswith('.blob')])
+        if 'records=0 ' not in c or ('corrupted=%d' % nblobs) not in c:
             fails.append('blobs with another key size were not all quarantined (validation error expected): %s' % c)
         return fails
     lazy = 'init=lazy' in lines[0]
